@@ -139,6 +139,14 @@ def run(ck, facts, tier):
     prims.rule_unit_merge(ck, facts, "C01.unit-merge")
     prims.rule_default_rate(ck, facts, "C01.defaults")
     prims.rule_closure_state(ck, facts, "C01.prims")
+    # the WASM host's state-cursor discipline (whose cursor a closure return resets) decides which cell a later
+    # `self`/`mem` of the caller reads: a VM/WASM difference
+    from . import c05
+
+    c05.rule_cursor(ck, facts)
+    from . import c03
+
+    c03.rule_type_substitution(ck, facts)  # a stale generic type has a different word size on the two back ends
     from . import c11
 
     c11.rule_closure_lifetime(ck, facts)
